@@ -374,22 +374,54 @@ func ExecAlphabet() []NamedExec {
 	return e
 }
 
-// MaskPairs are the SGPR pairs that hold lane masks (SRC2 mask, SDST).
-var MaskPairs = [2]int{SRegMask, SRegDst}
+// Roles tells which scalar registers hold lane masks (one bit per lane, moved
+// with the lanes by a permutation) as opposed to wave-uniform data. Input and
+// output roles are separate: the SDST pair of a VOP3b opcode / VOP3a compare
+// (or VCC, for SDST = VCC and for the implicit VCC result of VOPC / VOP2 carry
+// opcodes) is a lane mask PRODUCED by the instruction, whatever the same
+// register meant on input (e.g. the uniform scalar source of the instruction).
+type Roles struct {
+	VCCIn, VCCOut bool  // VCC is a lane mask on input / on output
+	In, Out       []int // SGPR pairs (number of the low register) that are lane masks on input / on output
+}
 
-// Permute sets dst = pi . src: lane pi[i] of dst is lane i of src; EXEC, VCC
-// (unless vccData) and the lane-mask SGPR pairs have their bits moved the same
-// way. Uniform state (other SGPRs, SCC, M0, PC, LDS, memory) is copied.
-func Permute(dst, src *State, pi *Perm, vccData bool) {
+// IsOut reports whether SGPR r is the low (0) or high (1) register of an output lane-mask pair.
+func (ro *Roles) IsOut(r int) (low, high bool) {
+	for _, x := range ro.Out {
+		if r == x {
+			return true, false
+		}
+		if r == x+1 {
+			return false, true
+		}
+	}
+	return false, false
+}
+
+// IsIn reports whether the pair starting at SGPR r is a lane mask on input.
+func (ro *Roles) IsIn(r int) bool {
+	for _, x := range ro.In {
+		if r == x {
+			return true
+		}
+	}
+	return false
+}
+
+// Permute sets dst = pi . src for an INPUT state: lane pi[i] of dst is lane i
+// of src; EXEC, VCC (if it is a lane mask on input) and the input lane-mask
+// SGPR pairs have their bits moved the same way. Uniform state (other SGPRs,
+// SCC, M0, PC, LDS, memory) is copied.
+func Permute(dst, src *State, pi *Perm, ro *Roles) {
 	for i := 0; i < 64; i++ {
 		copy(dst.Lane(int(pi[i])), src.Lane(i))
 	}
 	copy(dst.S, src.S)
-	for _, r := range MaskPairs {
+	for _, r := range ro.In {
 		PutS64(dst, r, pi.Bits(S64(src, r)))
 	}
 	dst.VCC = src.VCC
-	if !vccData {
+	if ro.VCCIn {
 		dst.VCC = pi.Bits(src.VCC)
 	}
 	dst.EXEC = pi.Bits(src.EXEC)
